@@ -181,16 +181,18 @@ HARNESSES = {
         "quick": [
             {"fixed": {"k": 1, "kind": "switched"}, "timeout": 280},
             {"fixed": {"k": 1, "kind": "routed"}, "timeout": 280},
+            {"fixed": {"k": 1, "kind": "firewalled"}, "timeout": 400},
         ]
         + [{"fixed": {"k": 2, "kind": "switched", "a0": a, "reset_at": 2}, "timeout": 280} for a in (24, 37, 41, 39, 7, 44, 9, 22, 6)]
         # removing applications that share a (port, protocol) key with other software of the node, one after the other
         + [{"fixed": {"k": 2, "kind": "switched", "a0": _IX_RM_DMB, "reset_at": 2}, "timeout": 280}]
         + [{"fixed": {"k": 3, "kind": "switched", "a0": _IX_INST_DOS, "a1": _IX_RM_DOS, "reset_at": 3, "M": 4}, "timeout": 280}],
         "thorough": [{"fixed": {"k": 2, "kind": kd, "a0": a}, "timeout": 1500} for kd in ("switched", "routed") for a in range(0, 62, 2)]
+        + [{"fixed": {"k": 2, "kind": "firewalled", "a0": a}, "timeout": 1500} for a in range(1, 79, 6)]
         + [{"fixed": {"k": 1, "kind": "", "scenario_file": f}, "timeout": 1500} for f in SHIPPED],
         "cover": ["steps_done", "reset"],
         "bounds": {
-            "quick": "k=1: every action x M in {1,2} x reset before/after, both topologies; k=2: first action in {file delete, folder create, shutdown, nic disable, service disable, app install, service fix, application fix, service restart, removal of an application sharing its port key}, second action any, M in 1..3; k=3: install dos-bot, remove it, then any action",
+            "quick": "k=1: every action x M in {1,2} x reset before/after, three topologies (switched, routed, firewall with DMZ); k=2: first action in {file delete, folder create, shutdown, nic disable, service disable, app install, service fix, application fix, service restart, removal of an application sharing its port key}, second action any, M in 1..3; k=3: install dos-bot, remove it, then any action",
             "thorough": "k=2 with every second action as first action on both topologies, M in 1..3, reset at 0/1/2; shipped scenario files with k=1 over their whole action map",
         },
     },
